@@ -892,6 +892,28 @@ class _TabDensity:
         return torch.stack([self.lw[j][idx[..., j]] for j in range(self.case["B"])], -1)
 
 
+class _Scratch:
+    """func that keeps the tensor it returns and later mutates it: 'outbuf' writes every result into ONE persistent buffer of its own
+    and returns that buffer (torch's out= idiom; the estimator runs under no_grad); 'keep' recycles (overwrites) the tensor it
+    returned last time before it hands out the next one.  The estimator calls func once per kept chain state, so both are visible
+    only when at least two states are kept."""
+
+    def __init__(self, f, mode):
+        self.f, self.mode, self.buf, self.last = f, mode, None, None
+
+    def __call__(self, b):
+        r = self.f(b)
+        if self.mode == "outbuf":
+            if self.buf is None:
+                self.buf = torch.empty_like(r)
+            self.buf.copy_(r)
+            return self.buf
+        if self.last is not None:
+            self.last.fill_(float("nan"))
+        self.last = r
+        return r
+
+
 def imh_run_impl(case):
     from pydrobert.torch import estimators as E
 
@@ -952,6 +974,8 @@ def imh_run_impl(case):
             r, p1, p2 = _patched([us])
             with p1, p2:
                 v2 = est()
+            if is_log:
+                v2 = v2.exp()
             res["twice_same"] = state["k"] == res["calls"] and ([float(x) for x in v2.reshape(-1)] == res["out"] or (
                 all(math.isnan(a) == math.isnan(b) and (math.isnan(a) or a == b) for a, b in zip([float(x) for x in v2.reshape(-1)], res["out"]))))
     except Exception as e:
@@ -1947,7 +1971,8 @@ def evaluate(case):
             res = est_run_impl(case)
             mt, st = est_terms(case, res)
             rel = [("no exception", res["exc"] is None)]
-            return dict(model=mt, spec=st, rel=rel, unique=False, impl={"exc": res["exc"], "out": res["out"][:4]})
+            return dict(model=mt, spec=st, rel=rel, unique=False, impl={"exc": res["exc"], "out": res["out"][:4],
+                                                                        "callback_results_aliasing_the_sample": res.get("aliased")})
         if k == "enum":
             res = enum_run_impl(case)
             mt, st = enum_terms(case, res)
@@ -1967,8 +1992,11 @@ def evaluate(case):
         if "twice_same" in res:
             rel.append(("the same Metropolis-Hastings estimator object run twice on the same proposals and uniforms returns the same "
                         "estimate from the same number of proposal draws", res["twice_same"]))
+        if "initial_unchanged" in res:
+            rel.append(("the handed initial_sample tensor is left as it was", res["initial_unchanged"]))
         return dict(model=[imh_model_term(case, res)], spec=[], rel=rel, unique=False,
-                    impl={"exc": res["exc"], "out": res.get("out"), "calls": res["calls"]})
+                    impl={"exc": res["exc"], "out": res.get("out"), "calls": res["calls"], "log_out": res.get("raw"),
+                          "func_results_aliasing_the_sample": res.get("aliased")})
     if fam == "dist":
         res = dist_run_impl(case)
         mt, rel = dist_terms(case, res)
@@ -2145,7 +2173,8 @@ def gen_cases(chk):
         c = gen_is_underflow(rng)
         c["stream"] = "extreme"
         under.append(c)
-    cases += gen_audit(chk, rng)    # robustness audit (drawn last)
+    cases += gen_audit(chk, rng)    # robustness audit
+    cases += gen_alias(chk, rng)    # callbacks that alias their argument / keep their result (drawn last)
     for i, c in enumerate(under):
         cases.insert(i * 7, c)   # (their Coq terms are slow: spread over the first shards, which are scheduled first)
     return cases
@@ -2293,6 +2322,110 @@ def gen_audit(chk, rng):
     return cases
 
 
+# ----------------------------------------------------------------------------------------
+# round-4 miss C19-g: argument / result aliasing through the user callbacks (see `_View`, `_Scratch`)
+# ----------------------------------------------------------------------------------------
+def _gen_view(rng, case, independent):
+    return {"i": rng.randrange(case["n"]) if independent else 0, "c": rng.randrange(case["V"]) if case["dtype"] == "onehot" else 1,
+            "how": rng.choice(VIEW_HOWS), "wrap": rng.choice(VIEW_WRAPS)}
+
+
+def _set_view(case, pre, spec):
+    """install a view callback; the integer tables of the case are kept consistent with it (they are not read: `_table_fr` derives the
+    table from the view; log space: the table is exp of these values)"""
+    ind = case["kind"] in IND_KINDS
+    case[pre + "view"] = spec
+    vals = _view_values(case, spec, ind)
+    K = len(_flat(case["theta"][0]))
+    case[pre + "C"] = [[4 * v for v in vals] for _ in range(case["B"])]
+    case[pre + "A"] = [[[0] * K for _ in vals] for _ in range(case["B"])]
+    case[pre + "P"] = [[0] * len(vals) for _ in range(case["B"])]
+
+
+def gen_alias_est(rng, quick):
+    """every estimator with callbacks that return their argument or a view of it (func, control variate on samples, control variate /
+    func on relaxed samples), linear and log space, with and without control variates; the Metropolis-Hastings estimator also in
+    log space with ordinary table functions (never exercised before) and with funcs that keep the tensor they return"""
+    what = rng.choice(["imh"] * 6 + ["direct"] * 4 + ["is"] * 3 + ["enum"] * 2 + ["st", "relax", "relax", "reparam"])
+    kind0 = "st" if what == "reparam" else what
+    want_same = rng.random() < 0.6
+    want_two = rng.random() < 0.85
+    while True:
+        c = gen_est(rng, kind0, small=quick)
+        if c["dtype"] not in ("bern", "onehot"):     # (a view of a Categorical sample is an integer tensor: not a value of f)
+            continue
+        if what == "imh" and (c["same"] != want_same or (want_two and c["N"] - c["burn"] < 2)):
+            continue
+        break
+    B, n, V = c["B"], c["n"], c["V"]
+    nout, K = V ** n, (n if c["dtype"] == "bern" else n * V)
+    ind = what in IND_KINDS
+    if quick and what in ("direct", "is") and nout > 4:
+        c["M"] = 1       # (cost of the exact model: the whole space of sample tuples is evaluated)
+    if what == "direct":
+        mode = rng.choice(["f", "f", "c", "both", "cvis"])
+        c["is_log"] = rng.random() < 0.4
+        if mode == "both" and c["is_log"]:
+            mode = "cvis"     # (f - c + mean c must stay positive in log space: the documented clamp is not in the model)
+        c["cv"] = mode != "f" or rng.random() < 0.5
+        if c["is_log"]:
+            _gen_table(rng, c, "f", B, nout, K, 40, 80)
+            _gen_table(rng, c, "c", B, nout, K, 1, 3, dep=False)    # c <= 3/4 < min f = 1 when f is a view
+        else:
+            _gen_table(rng, c, "f", B, nout, K)
+            _gen_table(rng, c, "c", B, nout, K)
+        if mode in ("f", "both", "cvis"):
+            _set_view(c, "f", _gen_view(rng, c, ind))
+        if mode in ("c", "both"):
+            _set_view(c, "c", _gen_view(rng, c, ind))
+        if mode == "cvis":
+            _set_view(c, "c", dict(c["fview"]))
+            c["cv_alias"] = True
+    elif what in ("is", "enum", "st"):
+        c["is_log"] = rng.random() < 0.4
+        _set_view(c, "f", _gen_view(rng, c, ind))
+    elif what == "relax":
+        mode = rng.choice(["f", "z", "both"])
+        c["is_log"] = mode == "f" and rng.random() < 0.4
+        if mode in ("f", "both"):
+            _set_view(c, "f", _gen_view(rng, c, ind))
+        if mode in ("z", "both"):
+            c["zview"] = _gen_view(rng, c, False)
+        if c["is_log"]:    # cv <= 1/2 * 3/2 < min f = 1: the per-call average stays positive
+            c["eta"] = 2
+            c["cw"] = [rng.randint(1, 6) for _ in range(B)] if c["dtype"] == "bern" else [[rng.randint(1, 6) for _ in range(V)] for _ in range(B)]
+    elif what == "reparam":
+        c.update(kind="reparam", base=rng.randint(1, 12), is_log=rng.random() < 0.4, eta=rng.choice([2, 4, 5]))
+        c["cw"] = [rng.randint(1, 8) for _ in range(B)] if c["dtype"] == "bern" else [[rng.randint(1, 8) for _ in range(V)] for _ in range(B)]
+        c["zview"] = _gen_view(rng, c, False)
+    else:
+        mode = rng.choice(["view"] * 13 + ["table"] * 5 + ["scratch"] * 2)
+        c["is_log"] = rng.random() < 0.45
+        if mode == "view":
+            _set_view(c, "f", _gen_view(rng, c, ind))
+        else:
+            if c["is_log"]:
+                _gen_table(rng, c, "f", B, nout, K, 40, 80, dep=False)
+            if mode == "scratch":
+                # func reuses / recycles the tensor it returned.  With >= 2 kept states the UNCHANGED estimator returns a wrong
+                # average (`v = fb` keeps func's tensor, corpus/C19/imh_func_reuses_output.json.pending): exactly that signature is
+                # left out - one kept state only
+                c["fmode"] = rng.choice(["outbuf", "keep"])
+                c["burn"] = c["N"] - 1
+    c = vary_est(rng, c)
+    if c.get("zview") is not None:
+        c["cvp"] = False      # (a view has no parameters for the variance-minimising branch)
+    return c
+
+
+def gen_alias(chk, rng):
+    quick = chk.tier != "thorough"
+    cases = [gen_alias_est(rng, quick) for _ in range(70 if quick else 500)]
+    for c in cases:
+        c["stream"] = "alias"
+    return cases
+
+
 def _key(case):
     fam = case["fam"]
     return fam + ":" + (case.get("kind") or case.get("op") or case.get("dtype") or "")
@@ -2338,6 +2471,17 @@ def run(chk, cases=None):
         "of lengths against a row of counts, inputs left untouched, SimpleRandomSamplingWithoutReplacement.expand() before / after "
         "log_partition was read.  Situations with a guaranteed share: RELAX with a NEGATIVE per-call average, Direct with a "
         "sample-dependent control variate and differentiable cv_mean, relaxed distributions from logits= and probs=, proposal IS density",
+        "callback aliasing (stream 'alias'): func / the control variate are the ordinary functions f(b) = b_i (one-hot: indicator of a "
+        "class; log space: log f = b_i) but RETURN THEIR ARGUMENT OR A VIEW OF IT (select, narrow, unbind, movedim, squeeze, view, "
+        "wrapped by transpose / unsqueeze / expand / view_as / slice) - legal FunctionOnSamples, the documentation only asks for a "
+        "tensor of shape (num_samples,) + batch_shape.  Judged by the same model terms and the whole-sample-space oracle on the "
+        "logical table (log space: the float64 value of e as an exact rational).  All of Direct (func, cv, both, cv IS func), "
+        "ImportanceSampling, Enumerate, StraightThrough, Relax (func on b, control variate on z), Reparameterization (func on z) and "
+        "Metropolis-Hastings (now also is_log=True, for views and for ordinary tables), linear and log space.  Metropolis-Hastings: "
+        "the handed initial_sample must be left as it was.  Not included because the unchanged library cannot be robust to them or "
+        "fails: callbacks that modify their ARGUMENT in place (every estimator reads the sample again after func(b): outside the "
+        "notion of 'the function f'); funcs that reuse / recycle the tensor they returned with >= 2 kept Metropolis-Hastings states "
+        "(reported, corpus/C19/imh_func_reuses_output.json.pending; the one-kept-state signature is in the stream)",
     ]
     cases = cases if cases is not None else gen_cases(chk)
     evs, terms, where = [], [], []
@@ -2362,6 +2506,24 @@ def run(chk, cases=None):
                         "clayout", "none_out", "script", "outer", "pre_lp"):
                 if opt in c:
                     chk.count("audit.%s=%s" % (opt, c[opt]))
+        if stream == "alias":
+            chk.count("alias:" + _key(c) + (",is_log" if c.get("is_log") else ""))
+            for opt in ("fview", "cview", "zview"):
+                if c.get(opt):
+                    chk.count("alias.%s" % opt)
+                    chk.count("alias.how=%s" % c[opt]["how"])
+                    chk.count("alias.wrap=%s" % c[opt]["wrap"])
+            for opt in ("fmode", "cv_alias"):
+                if c.get(opt):
+                    chk.count("alias.%s=%s" % (opt, c[opt]))
+            if c.get("kind") == "imh":
+                used = 0 if c["given"] is not None else 1
+                kept = c["draws"][used + c["burn"]:used + c["N"]]
+                chk.count("alias.imh kept=%s, first two kept proposals %s" % (
+                    min(len(kept), 2), "differ" if len(kept) >= 2 and kept[0] != kept[1] else "equal or single"))
+            if isinstance(ev["impl"], dict) and (ev["impl"].get("callback_results_aliasing_the_sample") or
+                                                 ev["impl"].get("func_results_aliasing_the_sample")):
+                chk.count("alias.callback result shared storage with the sample (observed)")
         if c["fam"] == "est" and c.get("kind") == "relax" and not c.get("is_log") and isinstance(ev["impl"].get("out"), list):
             for row in ev["impl"]["out"]:
                 chk.count("relax.estimate_sign=" + ("negative" if row[0] < 0 else "non-negative"))
@@ -2420,6 +2582,8 @@ def run(chk, cases=None):
                     "n_disagreeing_cases": len(nfi),
                     "what": "implementation differs from the model but every explored output satisfies the property's reading"},
                    no_failing_input=True)
+    from props.c19_tie import source_tie  # source tie: the translated sampler / binomial_coefficient, interpreted inside Coq
+    source_tie(chk, cases, [ev["impl"] for ev in evs])
 
 
 def replay(chk, path):
